@@ -69,6 +69,8 @@ func main() {
 		}
 	case "check":
 		os.Exit(checkMain(os.Args[2:]))
+	case "replay":
+		os.Exit(replayMain(os.Args[2:]))
 	default:
 		fmt.Fprintln(os.Stderr, "unknown command")
 		os.Exit(2)
